@@ -363,6 +363,33 @@ pub fn cells_ok(v: &Variable, depth: usize) -> Option<String> {
     }
 }
 
+/// The type tags a value carries tell the truth: every element of an array belongs to the
+/// element type the array is labelled with (run-time type tests and `$+`-style dispatch trust
+/// the label), recursively and through cells.
+pub fn labels_ok(v: &Variable, depth: usize) -> Option<String> {
+    if depth > 40 {
+        return None;
+    }
+    match v {
+        Variable::Array(a) => {
+            let label = Ty::from_real(a.element_type());
+            for x in a.iter() {
+                if let Some(why) = not_inhabits(x, &label, depth + 1) {
+                    return Some(format!("array labelled [{}] holds {}: {why}", label.print(), show(x)));
+                }
+                if let Some(why) = labels_ok(x, depth + 1) {
+                    return Some(why);
+                }
+            }
+            None
+        }
+        Variable::Tuple(xs) => xs.iter().find_map(|x| labels_ok(x, depth + 1)),
+        Variable::Struct(m) => m.values().find_map(|x| labels_ok(x, depth + 1)),
+        Variable::Mut(m) => m.variable.read().ok().and_then(|c| labels_ok(&c, depth + 1)),
+        _ => None,
+    }
+}
+
 pub fn show(v: &Variable) -> String {
     let s = format!("{v:?}");
     if s.len() > 200 {
